@@ -313,7 +313,7 @@ def check_generated(chk, quick):
             chk.count(cj(case), False)
             continue
         m = json.loads(parts[1])
-        if m["status"] in ("FUEL", "UNSUPPORTED") or m.get("tieFail") or enginerun.oracle_order_ambiguous(m) or r.errors:
+        if m["status"] in ("FUEL", "UNSUPPORTED") or m.get("tieFail") or enginerun.oracle_order_ambiguous(m, r.requests, True) or r.errors:
             chk.dist("generated.not_compared.%s" % ("engine-error" if r.errors else m["status"] if m["status"] in ("FUEL", "UNSUPPORTED")
                                                     else "tie-or-order"))
             chk.count(cj(case), False)
@@ -325,8 +325,8 @@ def check_generated(chk, quick):
                        law="the execution ends (at the instant the reference semantics predicts)")
             continue
         mode, hp, nev = enginerun.compare_history(c["machine"], m, r.history, len(r.requests), timed=True,
-                                                  request_instants=[q["t"] for q in r.requests])
-        nmode, np_ = enginerun.compare_notifications(m, [x["body"]["detail"] for x in r.notifications], c["input"], timed=True)
+                                                  request_instants=[q["t"] for q in r.requests], requests=r.requests)
+        nmode, np_ = enginerun.compare_notifications(m, [x["body"]["detail"] for x in r.notifications], c["input"], timed=True, requests=r.requests)
         chk.dist("generated.%s" % mode)
         chk.dist("generated.%s.events" % mode, nev)
         if cj(c01.impl_view(r)) != cj(c01.model_view(m)):
